@@ -2,6 +2,7 @@ package main
 
 import (
 	"fmt"
+	"math"
 	"strconv"
 	"strings"
 	"time"
@@ -161,7 +162,11 @@ func genNPT(r *hx.Rand, wf bool) time.Duration {
 	case 4:
 		ms = int64(r.U64() % 9223372036854)
 	case 5:
-		ms = int64(r.Intn(100000)) * 1000
+		if r.Bool() {
+			ms = int64(r.Intn(100000)) * 1000
+		} else { // 2^49 .. 2^53 ns: around the limit of what three float64 roundings preserve
+			ms = (int64(1)<<49 + int64(r.U64()%(1<<53-1<<49))) / 1000000
+		}
 	default:
 		ms = int64(r.Intn(100000000))
 	}
@@ -310,9 +315,10 @@ func rangeConflict(s string) bool {
 	return len(seen) > 1
 }
 
-// classRangeRT recognises F8: NPT seconds go through float64 (ParseFloat, *1e9, truncation).  Below 2^53 ns the
-// re-parsed duration is the original or the original minus one nanosecond (npt-ms-truncation); from 2^53 ns on a
-// float64 cannot hold the nanosecond count and the error is below one ulp (1024 ns) (npt-float-precision).
+// classRangeRT recognises F8: NPT seconds go through float64 (ParseFloat, *1e9).  npt-ms-truncation (fixed by /repo
+// ffeb757, kept as a regression class): below 2^50 ns the re-parsed duration is the original minus one nanosecond.
+// npt-float-precision (known): from 2^50 ns (about 13 days) on the three float64 roundings no longer guarantee the
+// nanosecond (from 2^53 ns on a float64 cannot even hold it); the error stays below 2048 ns.
 func classRangeRT(v headers.Range, s string, got string) string {
 	npt, ok := v.Value.(*headers.RangeNPT)
 	if !ok {
@@ -331,9 +337,9 @@ func classRangeRT(v headers.Range, s string, got string) string {
 		d := have - want
 		switch {
 		case d == 0:
-		case d == -1 && want < 1<<53:
+		case d == -1 && want < 1<<50:
 			trunc = true
-		case want >= 1<<53 && d > -2048 && d < 2048:
+		case want >= 1<<50 && d > -2048 && d < 2048:
 			prec = true
 		default:
 			return false
@@ -436,13 +442,23 @@ func floatCases(ctx *hx.Ctx, n int) {
 		var cl hx.L
 		cl.N(81)
 		putStr(&cl, tok)
-		f, err := strconv.ParseFloat(tok, 64)
+		// through the library whenever the token can be embedded in a Range header, else the same expression as range.go
 		var il hx.L
-		if err != nil {
-			il.N(0)
+		if !strings.ContainsAny(tok, "-;:\"") {
+			var h headers.Range
+			if err := h.Unmarshal(base.HeaderValue{"npt=" + tok + "-"}); err != nil {
+				il.N(0)
+			} else {
+				il.N(1).Z(int64(h.Value.(*headers.RangeNPT).Start))
+				ctx.Nontrivial("float/p/" + tok)
+			}
 		} else {
-			il.N(1).Z(int64(time.Duration(f * float64(time.Second))))
-			ctx.Nontrivial("float/p/" + tok)
+			f, err := strconv.ParseFloat(tok, 64)
+			if err != nil {
+				il.N(0)
+			} else {
+				il.N(1).Z(int64(time.Duration(math.Round(f * float64(time.Second)))))
+			}
 		}
 		ctx.Corr(cl.String(), il.String())
 	}
